@@ -247,13 +247,16 @@ struct Ctx {
 }
 
 fn run_case(run: &mut Run, ctx: &Ctx, e: &E, stream: &str) {
-    run_case_mode(run, ctx, e, stream, false, true)
+    run_case_mode(run, ctx, e, stream, 0, true)
 }
 
 /// `tight`: numeric oracle at the magnitude-1 / magnitude-1e6 assignments with tolerance
 /// 1e-12 x (largest intermediate magnitude), so that a relative change of 1e-9 in one operand is
 /// seen.  `structural`: also emit the Coq case (pointless for literals that are not small dyadics).
-fn run_case_mode(run: &mut Run, ctx: &Ctx, e: &E, stream: &str, tight: bool, structural: bool) {
+/// `oracle`: 0 = generic assignments, tolerance 1e-6 x largest intermediate magnitude; 1 = tight (above);
+/// 2 = constant folding: generic assignments, tolerance 1e-9 relative to the value of the input itself.
+fn run_case_mode(run: &mut Run, ctx: &Ctx, e: &E, stream: &str, oracle: u8, structural: bool) {
+    let tight = oracle == 1;
     let ex = to_impl(e);
     let simplified = match qv::catch(move || ex.into_simplified()) {
         Ok(s) => s,
@@ -271,7 +274,11 @@ fn run_case_mode(run: &mut Run, ctx: &Ctx, e: &E, stream: &str, tight: bool, str
     let (asg, rel) = if tight { (&ctx.tight_asg, 1e-12) } else { (&ctx.asg, 1e-6) };
     for (k, a) in asg.iter().enumerate() {
         let Some(scale) = scale_of(e, a) else { continue };
-        let tol = rel * scale;
+        let tol = if oracle == 2 {
+            1e-9 * to_impl(e).evaluate(&a.vars, &a.mem).map(|v| v.norm()).unwrap_or(0.0).max(1e-300)
+        } else {
+            rel * scale
+        };
         let v0 = to_impl(e).evaluate(&a.vars, &a.mem).expect("complete assignment");
         compared += 1;
         let ok = match out_impl.evaluate(&a.vars, &a.mem) {
@@ -657,10 +664,87 @@ fn main() {
                         cases.push(E::infix(E::infix(k.clone(), Op::Plus, x()), Op::Minus, x()));
                         cases.push(E::fnc(F::Cos, E::infix(x(), Op::Caret, k.clone())));
                         for e in &cases {
-                            run_case_mode(&mut run, &ctx, e, "tolerance-boundary", true, structural);
+                            run_case_mode(&mut run, &ctx, e, "tolerance-boundary", 1, structural);
                             ntol += 1;
                         }
                     }
+                }
+            }
+        }
+    }
+    // (5) constant-folding boundary stream: every operator / function the simplifier folds on numeric
+    // constants, at operands where a folding shortcut would go wrong (whole exponents at and beyond
+    // the i32 / u32 / i64 boundaries, parity of huge exponents, huge and tiny operands, large
+    // function arguments).  Judged numerically (relative 1e-9 against direct evaluation of the
+    // unsimplified expression, only where that is finite); structurally too where exact.
+    let mut nfold = 0u64;
+    {
+        let c = |re: f64, im: f64| E::Num(re, im);
+        let mut folds: Vec<E> = Vec::new();
+        let exps: Vec<f64> = vec![
+            2.0, 3.0, -2.0, 10.0, 31.0, 32.0, 63.0, 64.0, 65535.0, 65536.0, 2147483646.0, 2147483647.0, 2147483648.0,
+            2147483649.0, 4294967295.0, 4294967296.0, 4294967297.0, 4e9, 3e9, 1e12, 9.223372036854775807e18, 1.8446744073709552e19,
+            1e300, 0.5, 2.5, 2147483647.5,
+        ];
+        let bases: Vec<(f64, f64)> = vec![
+            (1.000000001, 0.0), (0.999999999, 0.0), (1.000000000001, 0.0), (0.999999999999, 0.0), (-1.0, 0.0),
+            (0.0, 1.0), (0.0, -1.0), (2.0, 0.0), (0.5, 0.0), (-0.5, 0.0), (1.0, 1.0), (-1.000000001, 0.0),
+            (1.0000001, 1e-9), (3.0, 0.0), (1.5, -0.5),
+        ];
+        for (br, bi) in &bases {
+            for n in &exps {
+                for sgn in [1.0, -1.0] {
+                    folds.push(E::infix(c(*br, *bi), Op::Caret, c(sgn * n, 0.0)));
+                }
+            }
+            // complex and folded exponents
+            folds.push(E::infix(c(*br, *bi), Op::Caret, c(0.0, 4e9)));
+            folds.push(E::infix(c(*br, *bi), Op::Caret, E::infix(c(2e9, 0.0), Op::Star, c(2.0, 0.0))));
+            folds.push(E::infix(c(*br, *bi), Op::Caret, E::neg(c(3e9, 0.0))));
+        }
+        let big: Vec<(f64, f64)> = vec![
+            (1e300, 0.0), (1e-300, 0.0), (-1e300, 0.0), (1e154, 1e154), (1e-160, 0.0), (1.7e308, 0.0), (5e-324, 0.0),
+            (1e16, 0.0), (1e16, 1.0), (3.0, 0.0), (1e-9, 0.0), (0.0, 1e200), (123456789.0, 1e-7), (7.0, 0.0), (1e22, 0.0),
+        ];
+        for (i, (ar, ai)) in big.iter().enumerate() {
+            for (br, bi) in big.iter().skip(i % 3).step_by(3) {
+                for o in [Op::Plus, Op::Minus, Op::Star, Op::Slash] {
+                    folds.push(E::infix(c(*ar, *ai), o, c(*br, *bi)));
+                }
+            }
+        }
+        let args: Vec<(f64, f64)> = vec![
+            (1e22, 0.0), (1e6, 0.0), (-1e15, 0.0), (710.0, 0.0), (700.0, 0.0), (-745.0, 0.0), (0.0, 700.0), (0.0, 30.0),
+            (1e300, 0.0), (1e-300, 0.0), (-4.0, 0.0), (-4.0, 1e-20), (2.0, 3.0), (1e200, 1e200), (0.1, 0.0), (100.0, -20.0),
+        ];
+        for (ar, ai) in &args {
+            for f in ALL_F {
+                folds.push(E::fnc(f, c(*ar, *ai)));
+                folds.push(E::fnc(f, E::infix(c(*ar, *ai), Op::Star, c(1.0, 0.0))));
+                folds.push(E::fnc(f, E::neg(c(*ar, *ai))));
+            }
+        }
+        for e in &folds {
+            run_case_mode(&mut run, &ctx, e, "fold-boundary", 2, false);
+            // embedded under one operator with a variable
+            let w = match rng.below(5) {
+                0 => E::infix(e.clone(), Op::Plus, x()),
+                1 => E::infix(x(), Op::Star, e.clone()),
+                2 => E::infix(e.clone(), Op::Slash, y()),
+                3 => E::infix(E::Addr(0, 0), Op::Minus, e.clone()),
+                _ => E::fnc(F::Cos, E::infix(x(), Op::Star, e.clone())),
+            };
+            run_case_mode(&mut run, &ctx, &w, "fold-boundary-embedded", 2, false);
+            nfold += 2;
+        }
+        // exact ones also structurally: small dyadic constants under every operator
+        let small: [f64; 6] = [0.0, 1.0, -1.0, 2.0, 0.5, -0.25];
+        for a in small {
+            for b in small {
+                for o in ALL_OP {
+                    run_case_mode(&mut run, &ctx, &E::infix(c(a, 0.0), o, c(b, 0.0)), "fold-small", 2, true);
+                    run_case_mode(&mut run, &ctx, &E::infix(c(a, b), o, c(b, -a)), "fold-small", 2, true);
+                    nfold += 2;
                 }
             }
         }
@@ -675,7 +759,7 @@ fn main() {
          witnesses. Distinct by the tree; non-trivial = the implementation's simplified form differs from the input.",
         true,
         serde_json::json!({"full_nodes": full_nodes, "exhaustive_cases": nsmall, "depth2_sample": sampled_d2,
-                           "rule_directed_cases": nrule, "rule_patterns": pats.len(), "random_cases": nrand, "deep_cases": ndeep, "tolerance_cases": tol_cases.len(), "tolerance_boundary_cases": ntol, "corpus": corpus.len(),
+                           "rule_directed_cases": nrule, "rule_patterns": pats.len(), "random_cases": nrand, "deep_cases": ndeep, "tolerance_cases": tol_cases.len(), "tolerance_boundary_cases": ntol, "fold_boundary_cases": nfold, "corpus": corpus.len(),
                            "mutant": ctx.mutant}),
     );
 }
